@@ -161,6 +161,7 @@ fn to_tokens_integers<T: RangeNumber>(
     quote! {
         {
             #captured_values
+            let #count_key = core::clone::Clone::clone(&#count_key);
             move || #match_statement
         }
     }
@@ -206,6 +207,7 @@ fn to_tokens_floats<T: RangeNumber>(
     quote! {
         {
             #captured_values
+            let #count_key = core::clone::Clone::clone(&#count_key);
             move || {
                 let plural_count = #count_key();
                 #ifs
